@@ -1234,8 +1234,6 @@ impl Iterator for FileIterator<'_> {
             return None;
         }
 
-        // @todo: probably safe to hand out a reference instead of cloning, just a bit more painful
-        let file_entry = self.file_entries[self.count].clone();
         self.count += 1;
 
         let reader = payload::Reader::new(&mut self.archive, &self.file_entries);
@@ -1245,6 +1243,26 @@ impl Iterator for FileIterator<'_> {
                 if entry_reader.is_trailer() {
                     return None;
                 }
+
+                // The archive does not have to contain every file of the header (%ghost files are
+                // left out) or list them in the same order, so the metadata has to be looked up.
+                // @todo: probably safe to hand out a reference instead of cloning, just a bit more painful
+                let file_entry = match entry_reader.entry() {
+                    payload::RpmPayloadEntry::Cpio(entry) => {
+                        let name = entry.name();
+                        let path = Path::new(name.strip_prefix('.').unwrap_or(name));
+                        self.file_entries.iter().find(|e| e.path == path)
+                    }
+                    payload::RpmPayloadEntry::Stripped(index) => {
+                        self.file_entries.get(*index as usize)
+                    }
+                };
+                let Some(file_entry) = file_entry.cloned() else {
+                    return Some(Err(Error::Io(io::Error::new(
+                        io::ErrorKind::InvalidData,
+                        "archive entry is not listed in the header",
+                    ))));
+                };
 
                 let mut content = Vec::new();
 
